@@ -421,6 +421,9 @@ META = {
         "Family samename: two font dictionaries with the same BaseFont name but other Widths and another Encoding, bound to F1/F2 (both ways round); every "
         "page of 1..same_single (Tf, Tj) items, and every two-page document of pages with 1..same_pair items x the 4 resource bindings, each document "
         "processed by one resource manager, one device and one interpreter. "
+        "Family leftover: every list of 1..2 operands from {30, 40, (A), /F2} left unconsumed at the end of a page (or of a form XObject), followed -- "
+        "directly, after an unrelated page, or after the form -- by a page with one of 12 operators lacking operands (inside and outside BT, plus a bare cm) "
+        "and then show operators; one interpreter/device per document, every page judged on its own. "
         "A case = one executed program (key = program bytes + width set); non-trivial = the model reports at least one glyph. "
         "states = distinct (real,model) states summed over shards, transitions = operator applications executed on the real code, "
         "traces = complete programs compared with the model."
@@ -692,6 +695,85 @@ def same_shard(shard, tier, st):
     st.add("samename_documents", n)
 
 
+# ------------------------------------------------------------------ family: operands left over at the end of a page / form
+LEFT_POOL = [30, 40, b"A", "/F2"]
+LEFT_BARE = [("Td",), ("TD",), ("Tf",), ("Tc",), ("Tw",), ("TL",), ("Tj",), ("'",), ("Td", 5), ("Tf", "/F2"), ("Tm", 1, 0, 0, 1), ('"', b"B")]
+LEFT_PAGE1 = (("BT",), ("Tf", "/F1", 8), ("Tj", b"B"), ("ET",))
+LEFT_FORM = (("BT",), ("Tf", "/F1", 8), ("Tj", b"C"), ("ET",))
+
+
+def left_page2(bare, outside: bool):
+    """an operator with missing operands, then a show operator whose glyph position/font/spacing would reveal any effect"""
+    if outside:  # the ill-formed operator at page level (cm with no operands as well)
+        return (("cm",), bare, ("BT",), ("Tf", "/F1", 8), ("Tj", b"A B"), ("ET",))
+    return (("BT",), ("Tf", "/F1", 8), ("TL", 12), bare, ("Tj", b"A B"), ("T*",), ("Tj", b"C"), ("ET",))
+
+
+def left_check(leftover, st):
+    """one document per leftover operand list; every page is judged on its own (ISO: a page starts with an empty operand stack)"""
+    tail = b" " + b" ".join(t for o in leftover for t in gfx._tok_operand(o))
+    d = G.Doc()
+    wset = WIDTH_SETS[0]
+    fref = {k: d.add(font_dict(k, wset)) for k in ("A", "B")}
+    fonts = {"F1": fref["A"], "F2": fref["B"]}
+    form = d.add(G.Stream({"Type": G.N("XObject"), "Subtype": G.N("Form"), "BBox": [0, 0, 200, 200], "Resources": {"Font": fonts}},
+                          gfx.program(LEFT_FORM) + tail))
+    res = {"Font": fonts, "XObject": {"FmL": form}}
+    pages, evs = [], []
+    for bare in LEFT_BARE:
+        for outside in (False, True):
+            p2 = left_page2(bare, outside)
+            # page ending with leftovers, then the page with the ill-formed operator
+            pages += [(gfx.program(LEFT_PAGE1) + tail, res), (gfx.program(p2), res)]
+            evs += [LEFT_PAGE1, p2]
+        # leftovers, an unrelated complete page in between, then the ill-formed operator
+        p2 = left_page2(bare, False)
+        pages += [(gfx.program(LEFT_PAGE1) + tail, res), (gfx.program(LEFT_PAGE1), res), (gfx.program(p2), res)]
+        evs += [LEFT_PAGE1, LEFT_PAGE1, p2]
+        # a form that ends with leftovers, invoked before the ill-formed operator
+        p3 = (("Do", "/FmL"),) + p2
+        pages.append((gfx.program(p3), res))
+        evs.append(p3)
+    data = gfx.pages_doc(pages, doc=d)
+    out = gfx.run_pages(data)
+    st.traces += 1
+    bad, allexp, allobs = [], [], []
+    for e, (lt, exc) in zip(evs, out):
+        m = TM()
+        m.res = {"fonts": {"F1": "A", "F2": "B"}, "xobjects": []}
+        for ev in e:
+            if ev == ("Do", "/FmL"):
+                for fe in LEFT_FORM:  # no Matrix, same fonts: the form's glyphs are those of its content
+                    m._do(fe)
+                continue
+            m._do(ev)
+        exp = list(m.out)
+        obs = observe(lt) if exc is None else gfx.exc_sig(exc)
+        allexp.append(gfx.fl(exp))
+        allobs.append(obs)
+        b = diff(exp, obs) if exc is None else ["exception"]
+        bad += [x for x in b if x not in bad]
+    if len(out) != len(pages):
+        bad.append("pages")
+    st.case(None, nontrivial=True, outcome=h64(repr(allobs)), n=len(pages))
+    if bad:
+        sig = "C05/leftover-operands-cross-page:" + ",".join(sorted(bad))
+        st.violation(sig, {"family": "leftover", "leftover": list(leftover), "pdf": data if st.viol_counts[sig] < st.MAX_VIOL_PER_SIG else b""},
+                     allexp, allobs, "operands left at the end of a page/form are used by a later operator: " + ",".join(sorted(bad)))
+
+
+def left_shard(tier, st):
+    n = 0
+    for k in (1, 2):
+        for lo in itertools.product(LEFT_POOL, repeat=k):
+            left_check(lo, st)
+            n += 1
+    st.states += n + 1
+    st.transitions += n
+    st.add("leftover_documents", n)
+    st.sample({"family": "leftover", "page1": gfx.program(LEFT_PAGE1) + b" 30 40", "page2": gfx.program(left_page2(("Td",), False))})
+
+
 def depth_of(tier, root, wset):
     b = BOUNDS[tier]
     return b["depth"][root] if wset == 0 else b["depth_wset1"]
@@ -702,7 +784,7 @@ def shards(tier):
     from mc.core import Stats
 
     b = BOUNDS[tier]
-    out = [("same", r1, r2) for r1 in (0, 1) for r2 in (None, 0, 1)]
+    out = [("same", r1, r2) for r1 in (0, 1) for r2 in (None, 0, 1)] + [("left", 0, 0)]
     for wset in b["wsets"]:
         for root in ROOTS:
             if wset != 0 and root != "text":
@@ -721,6 +803,9 @@ def run_shard(shard, tier, st):
     kind, root, wset = shard[:3]
     if kind == "same":
         same_shard(shard, tier, st)
+        return
+    if kind == "left":
+        left_shard(tier, st)
         return
     if kind == "pre":
         sd = min(b["shard_depth"], depth_of(tier, root, wset))
@@ -741,6 +826,10 @@ def run_shard(shard, tier, st):
 def replay(case):
     from mc.core import Stats
 
+    if case.get("family") == "leftover":
+        st = Stats()
+        left_check(tuple(gfx.ev_from_json(e) for e in case["leftover"]) if isinstance(case["leftover"], (list, tuple)) else (), st)
+        return [{"signature": v["signature"], "expected": repr(v["expected"]), "observed": repr(v["observed"])} for v in st.violations]
     if case.get("family") == "samename":
         st = Stats()
         pages = [(tuple(gfx.ev_from_json(e) for e in evs), r) for evs, r in case["pages"]]
